@@ -311,6 +311,55 @@ fn one_case(ctx: &Ctx, case: u64, l: &mut Local) {
             }
         }
     }
+    // ---- out-of-window tokens whose (genuine) signature is written in another encoding: a fallback
+    // that accepts such a signature must not skip the window either
+    if cfg.alg == Alg::ES256 || case % 4 == 0 {
+        use base64::Engine;
+        for (name, exp, nbf) in [("expired", Some(t0 - 7200), None), ("exp-absent", None, None), ("nbf-future", Some(t0 + 2 * 86_400), Some(t0 + 86_400))] {
+            let mut p = base.clone();
+            p.remove("exp");
+            p.remove("nbf");
+            if let Some(e) = exp {
+                p.insert("exp".into(), json!(e));
+            }
+            if let Some(n) = nbf {
+                p.insert("nbf".into(), json!(n));
+            }
+            let jwt = api::sign_payload(cfg.alg, 0, &Value::Object(p), None);
+            let segs = match crate::tamper::segments(&jwt) {
+                Some(x) => x,
+                None => continue,
+            };
+            let raw = crate::model::b64d(&segs[2]).unwrap_or_default();
+            let mut sigs: Vec<String> = vec![base64::engine::general_purpose::STANDARD.encode(&raw), base64::engine::general_purpose::URL_SAFE.encode(&raw), raw.iter().map(|b| format!("{b:02x}")).collect()];
+            if let Some(d) = crate::tamper::ecdsa_sig_to_der_b64(&segs[2]) {
+                sigs.push(d);
+            }
+            for sig in sigs {
+                let sd = Parts { jwt: format!("{}.{}.{}", segs[0], segs[1], sig), disclosures: issued.parts.disclosures.clone(), kb: None };
+                let enc = match sd.encode(fmt, 0) {
+                    Some(x) => x,
+                    None => continue,
+                };
+                if fmt == Fmt::Compact && !sd.compact_representable() {
+                    continue;
+                }
+                let v = api::verify(&enc, &resolver, None, fmt);
+                l.evals += 1;
+                match &v.out {
+                    pn @ Outcome::Panic(..) => l.violate(Violation { subcheck: "panic".into(), class: format!("{name}, signature transcoded"), observed: pn.panic_signature().unwrap(), case, detail: json!({"jwt": sd.jwt}) }),
+                    Outcome::Ok(_) => l.violate(Violation {
+                        subcheck: format!("accepted-outside-window-{}", if name == "nbf-future" { "nbf" } else { "exp" }),
+                        class: format!("{name}, genuine signature in another encoding"),
+                        observed: "Ok".into(),
+                        case,
+                        detail: json!({"config": cfg.describe(), "jwt": sd.jwt, "t": t0}),
+                    }),
+                    Outcome::Err(_) => l.count(&format!("must-reject.{}.rejected", if name == "nbf-future" { "nbf" } else { "exp" })),
+                }
+            }
+        }
+    }
     // ---- a temporal claim written TWICE in the signed payload text (RFC 7519 §4: reject, or use the
     // lexically last one): whenever the last one is outside the window the token must be refused
     {
